@@ -62,9 +62,9 @@ WidthLemma == First => Size(input) = MsgWidth(case.name, case.f)
 TxStd == mode \in {"tx", "btx"} => TxStandardHere
 
 \* ---------------------------------------------------------------- lemmas about the whole case set
-ASSUME AllCases == Len(CaseSeq) > 0
+ASSUME AllCases == Len(CaseSeq) > 0 /\ (Emit => PrintT(ToJson([k |-> "ncases", n |-> Len(CaseSeq)])))
 \* distinct field values have distinct encodings (per message)
-ASSUME Injective == \A k \in 1..Len(MsgOrder) :
+ASSUME Injective == Tier = "p" \/ \A k \in 1..Len(MsgOrder) :
           LET m == MsgOrder[k] IN
           m \notin {"alert"} => Cardinality({Pack(m, f) : f \in Cases(m)}) = Cardinality(Cases(m))
 \* every message of the protocol table has cases, and exactly the 28 names are covered
